@@ -315,11 +315,15 @@ type vcase struct {
 	code     int // coded errors
 	status   int // plain errors: expected HTTP status
 	callback string
+	huge     bool // a success value of a megabyte or more: always also sent over the loopback server
+	postForm bool // the request is a POST whose urlencoded BODY has a callback field (not a query parameter)
 	shape    string
 	jsonMsg  bool // plain error whose message is itself a JSON text
 	handler  http.Handler
 	desc     string
 }
+
+var hugeEvery = 97 // one success value in hugeEvery is a megabyte or more (thorough: fewer, the run is 250x longer)
 
 func genCase(r *vrand.Rand, i int) *vcase {
 	c := &vcase{idx: i}
@@ -343,6 +347,7 @@ func genCase(r *vrand.Rand, i int) *vcase {
 	if r.Chance(2, 5) {
 		c.callback = cbPool[r.Intn(len(cbPool))]
 	}
+	c.postForm = r.Chance(1, 6)
 	switch c.kind {
 	case kSuccess:
 		sh := map[string]bool{}
@@ -354,8 +359,26 @@ func genCase(r *vrand.Rand, i int) *vcase {
 			}
 		}
 		c.shape = strings.Join(ks, "+")
+		if i%hugeEvery == 0 {
+			// a large document (a stream list, a log excerpt): the envelope has no size limit in the statement
+			n := r.Pick(1<<20-64, 1<<20, 1<<20+1, 3<<20)
+			if r.Bool() {
+				c.value = map[string]interface{}{"log": strings.Repeat("0123456789abcdef", n/16), "n": n}
+			} else {
+				arr := make([]interface{}, n/8)
+				for k := range arr {
+					arr[k] = k % 1000
+				}
+				c.value = arr
+			}
+			c.shape, c.huge, c.callback = "huge", true, "" // through ApiRequest, the library's client
+		}
 		c.handler = oh.Data(nil, c.value)
-		c.desc = fmt.Sprintf("Data(%s)", descr(c.value))
+		if c.huge {
+			c.desc = "Data(a value of a megabyte or more)"
+		} else {
+			c.desc = fmt.Sprintf("Data(%s)", descr(c.value))
+		}
 	case kUnmarshalable:
 		c.value, c.shape = genUnmarshalable(r)
 		c.handler = oh.Data(nil, c.value)
@@ -652,6 +675,9 @@ func TestVerif_C19_Envelope(t *testing.T) {
 		tr.MaxIdleConnsPerHost = 64
 	}
 	n := m.N(6000, 1500000)
+	if !m.Quick() {
+		hugeEvery = 1499
+	}
 	only := -1 // under `check.py --replay`: the recorded case only, no mandatory minimums
 	if v, ok := m.ReplayField("case").(float64); ok {
 		only = int(v)
@@ -665,6 +691,8 @@ func TestVerif_C19_Envelope(t *testing.T) {
 	require("loopback_client_success", int64(n/20))
 	require("loopback_client_error_reported", int64(n/20))
 	require("jsonp_wrapped_ok", int64(n/20))
+	require("post_requests_with_callback_in_the_body", int64(n/10))
+	require("huge_success_read_back_by_client", int64(n/hugeEvery/4))
 	require("jsonp_wrapped_coded_error_ok", int64(n/40))
 	require("coded_error_code_ok", int64(n/10))
 	require("plain_error_status_ok", int64(n/20))
@@ -729,7 +757,7 @@ func TestVerif_C19_Envelope(t *testing.T) {
 			defer func() { flush(i, list) }()
 			r := m.Rand("case", i)
 			c := genCase(r, i)
-			loop := i%2 == 0
+			loop := i%2 == 0 || c.huge
 			m.Case()
 			m.Classf("%s/%s/cb%d/loop%d", kindNames[c.kind], c.shape, b2i(c.callback != ""), b2i(loop))
 			m.Count("kind_"+kindNames[c.kind], 1)
@@ -746,6 +774,12 @@ func TestVerif_C19_Envelope(t *testing.T) {
 			m.Guard("http.handler:"+kindNames[c.kind], nil, func() {
 				rec := httptest.NewRecorder()
 				req := httptest.NewRequest("GET", "http://verif.test/case/"+strconv.Itoa(i)+q, nil)
+				if c.postForm {
+					// only a callback QUERY parameter selects JSONP: a form field of that name in a POST body does not
+					req = httptest.NewRequest("POST", "http://verif.test/case/"+strconv.Itoa(i)+q, strings.NewReader("callback=fromBody&x=1"))
+					req.Header.Set("Content-Type", "application/x-www-form-urlencoded")
+					m.Count("post_requests_with_callback_in_the_body", 1)
+				}
 				c.handler.ServeHTTP(rec, req)
 				res := rec.Result()
 				recBody, _ = ioutil.ReadAll(res.Body)
@@ -792,6 +826,9 @@ func TestVerif_C19_Envelope(t *testing.T) {
 					return
 				}
 				m.Count("loopback_client_success", 1)
+				if c.huge {
+					m.Count("huge_success_read_back_by_client", 1)
+				}
 				checkResponse(v, 200, http.Header{"Server": {srvName}, "Content-Type": {"application/json"}}, body) // body as handed back by the client
 			default:
 				if err == nil {
